@@ -728,6 +728,11 @@ static void MakeCode_ST6(void) {
         return;
     }
 
+    /* BYTE/WORD use the Motorola handlers directly: low byte first,
+       independent of what a 68xx/65xx target selected before */
+
+    SetMotoPseudoTurn(False);
+
     if (!LookupInstTable(InstTable, OpPart.str.p_str)) {
         WrStrErrorPos(ErrNum_UnknownInstruction, &OpPart);
     }
